@@ -46,6 +46,18 @@ func (p propSpec) Deadline(tier int) time.Duration { return p.DeadlineT[tier] }
 const techSX = "symbolic execution of the real code's go/ssa (GoSX) with SMT (z3) deciding every branch and assertion over all values of the symbolic inputs within the stated bounds; counterexamples replayed natively"
 
 var properties = map[string]propSpec{
+	"C10": {
+		Level: "model_checking", Technique: techSX + "; the PEG engine, rule table, actions, utf8 decoding and strconv.Unquote run on symbolic bytes",
+		Bounds:  [2]string{"every byte string of length <= 3 (2^24+ inputs); 59 corpus strings (every rule and error production) concretely; for a seed-selected third of the corpus every position with one byte replaced by, or one byte inserted as, an unconstrained byte", "every byte string of length <= 4 (2^32+); windows over the whole corpus"},
+		Outside: "inputs longer than the symbolic bound that differ from every corpus string in more than one byte",
+		StepBudget: 600_000_000,
+	},
+	"C11": {
+		Level: "model_checking", Technique: techSX + "; the budget is a symbolic uint64 case-split by the parser's own comparison",
+		Bounds:  [2]string{"13 inputs (valid, invalid with each error production, nesting <= 2) x budgets n in [0,24] U [N-24,N+24] U [2^62,2^64) (N = unlimited step count, measured on the path); nesting depth 6..8 under budgets 50..2000; CreateEvaluator/CreateFilter hand-over on 6 inputs", "windows of 96 around 0 and N"},
+		Outside: "budgets strictly between the windows (the comb of all N thresholds is quadratic under re-execution); inputs outside the corpus",
+		StepBudget: 600_000_000,
+	},
 	"C18": {
 		Level: "model_checking", Technique: techSX,
 		Bounds:  [2]string{"9 expressions on a tagged struct datum with symbolic leaves; every ordered pair of distinct option kinds x 3 settings each; repeated options (with an unrelated one in between); 6 neutral settings; unwrap/identity/constant hooks executed symbolically through pointerstructure; budget symbolic above 2^32", "same"},
